@@ -21,7 +21,7 @@ func init() {
 			"D4 MinIndex/MaxIndex of the dense family and the sparse store return the undefined-index error exactly on the emptiness edge. "+
 			"D5 window loops of the dense read paths (ForEach, Bins, Encode, encodeSparsely) cover minIndex…maxIndex inclusive (ToProto/EncodeProto/encodeDensely/Reweight are checked by C09/C06/C16). "+
 			"D6 the window-moving primitives of the dense store as linear forms — shiftCounts copies bins[min−off … max−off] to +shift, resets exactly the vacated slots for either sign of the shift and updates offset −= shift; resetBins zeroes bins[from−off … to−off]; centerCounts stores the new window and shifts by offset + len/2 − (newMin + (newMax−newMin+1)/2); truncating integer division is only applied to widths and lengths. "+
-			"SHARED (obligations of other properties that decide clauses this property states too, re-evaluated here under their home rule ids): for DenseStore, SparseStore and BufferedPaginatedStore only — C01-D3 as C04-D7 (rank lookup: first index whose cumulative weight strictly exceeds the rank, buffer sorted first), C02-D2/D3/D4 (merge from any store kind, argument neither written nor captured, cached total and window follow), C14-D2 (Copy defines every field, deep), C15-D1 (Clear covers every written field), C16-D2 (Reweight scales everything held). "+
+			"SHARED (obligations of other properties that decide clauses this property states too, re-evaluated here under their home rule ids): for DenseStore, SparseStore and BufferedPaginatedStore only — C01-D3 as C04-D7 (rank lookup: first index whose cumulative weight strictly exceeds the rank, buffer sorted first), C02-D2/D3/D4 (merge from any store kind, argument neither written nor captured, cached total and window follow), C14-D2 (Copy defines every field, deep), C15-D1 (Clear covers every written field), C16-D2 (Reweight scales everything held). C09-D3 for the MergeWithProto loops (every bin of a message is added at its own index). "+
 			"NOT DECIDED: that weights are never lost, duplicated or misattributed by normalize/extendRange/shiftCounts/page()/compact() — value statements about counts.",
 		"one obligation per store × entry point, per fold site, per callback call site, per window loop, per twin path",
 		false, runC04)
@@ -62,6 +62,8 @@ func runC04(c *Ctx) {
 	c.shared(func() { c02ArgUntouched(c, a, "C02-D2") }, notCollapsing)
 	c.shared(func() { c14Copies(c, a) }, notCollapsing)
 	c.shared(func() { c16Stores(c, a) }, notCollapsing)
+	// additions "as bins" also arrive through protobuf messages: the rebuild loops add every bin at its own index
+	c.shared(func() { c09Rebuild(c, a) }, keyMentions("MergeWithProto"))
 	dense := c.P.NamedType(pkgStore, "DenseStore")
 	for _, t := range impls {
 		if n := t.Obj().Name(); n == "DenseStore" || n == "SparseStore" || t == pr.typ {
